@@ -161,11 +161,15 @@ hx_tmpl(json_t *args, const char *key)
 }
 
 static const op_t *const tables[] = {
-    ops_tables, ops_b64, ops_io, ops_jwk, ops_misc, ops_jws, ops_jwe, ops_api, ops_cfg, ops_glob, NULL
+    ops_tables, ops_b64, ops_io, ops_jwk, ops_misc, ops_jws, ops_jwe, ops_api, ops_cfg, ops_glob,
+#ifdef HX_ALLOC
+    ops_alloc,
+#endif
+    NULL
 };
 
-static op_fn
-find_op(const char *name)
+op_fn
+hx_find_op(const char *name)
 {
     for (size_t t = 0; tables[t]; t++)
         for (const op_t *o = tables[t]; o->name; o++)
@@ -191,7 +195,7 @@ hx_process(char *line)
     sp = strchr(line, ' ');
     if (sp)
         *sp++ = 0;
-    fn = find_op(line);
+    fn = hx_find_op(line);
     if (!fn)
         return strdup("{\"error\":\"unknown-op\"}");
     args = json_loads(sp ? sp : "{}", JSON_ALLOW_NUL | JSON_DECODE_ANY, &err);
